@@ -709,8 +709,31 @@ func ruleManaged(c *Ctx) {
 	{
 		info := cu.Pkg.TypesInfo
 		var loop *ast.RangeStmt
+		// the list itself, or a local snapshot of it taken in this function
+		// (append([]*Client(nil), managedClients...), slices.Clone(managedClients))
+		isList := func(e ast.Expr) bool {
+			if identObj(info, e) == mc {
+				return true
+			}
+			v, ok := identObj(info, e).(*types.Var)
+			if !ok || v.IsField() {
+				return false
+			}
+			d := p.singleDef(cu, v)
+			call, ok := ast.Unparen(d).(*ast.CallExpr)
+			if d == nil || !ok {
+				return false
+			}
+			switch p.CalleeName(cu, call) {
+			case "slices.Clone":
+				return len(call.Args) == 1 && identObj(info, call.Args[0]) == mc
+			case "builtin.append":
+				return len(call.Args) == 2 && call.Ellipsis.IsValid() && identObj(info, call.Args[1]) == mc
+			}
+			return false
+		}
 		ast.Inspect(cu.Body, func(x ast.Node) bool {
-			if rs, ok := x.(*ast.RangeStmt); ok && identObj(info, rs.X) == mc {
+			if rs, ok := x.(*ast.RangeStmt); ok && isList(rs.X) {
 				loop = rs
 			}
 			return true
@@ -1748,5 +1771,158 @@ func ruleLazyIter(c *Ctx) {
 	}
 	if bad == 0 {
 		c.R.Hold("R-GUARD/iter", "-", "", "lazy iterators over guarded collections", fmt.Sprintf("%d iterator(s) created under a mutex; each is consumed with that mutex held", n), n > 0)
+	}
+}
+
+// ---------- R-ADDR/immutable: a resolved address is never modified in place ----------
+
+// ruleAddrImmutable: the address a client reports (Client.address, the value
+// Start returns, ReattachConfig.Addr) is a pointer to a net.TCPAddr or
+// net.UnixAddr shared by every holder; the module never assigns a field of
+// such a value (nor an element of its IP), so whoever holds the address keeps
+// seeing what the handshake said.
+func ruleAddrImmutable(c *Ctx) {
+	p := c.P
+	n, bad := 0, 0
+	for _, f := range p.Funcs {
+		if strings.HasSuffix(p.Fset.Position(f.Body.Pos()).Filename, "testing.go") {
+			continue
+		}
+		info := f.Pkg.TypesInfo
+		walkNoLit(f.Body, func(x ast.Node) bool {
+			as, ok := x.(*ast.AssignStmt)
+			if !ok {
+				return true
+			}
+			for _, l := range as.Lhs {
+				target := ast.Unparen(l)
+				for {
+					if ix, isIx := target.(*ast.IndexExpr); isIx {
+						target = ast.Unparen(ix.X)
+						continue
+					}
+					break
+				}
+				se, isSel := target.(*ast.SelectorExpr)
+				if !isSel {
+					continue
+				}
+				t := info.TypeOf(se.X)
+				if t == nil {
+					continue
+				}
+				if pt, isP := t.Underlying().(*types.Pointer); isP {
+					t = pt.Elem()
+				}
+				switch t.String() {
+				case "net.TCPAddr", "net.UnixAddr", "net.UDPAddr", "net.IPAddr":
+					n++
+					// a value under construction in this function is not shared yet
+					if rv := rootVar(info, se); rv != nil && freshLocals(p, f)[rv] {
+						continue
+					}
+					bad++
+					c.R.Violate("R-ADDR/immutable", p.Pos(as), f.Name, "write "+t.String()+"."+se.Sel.Name,
+						"a resolved network address is modified in place: the same pointer is what Start returned, what Client.address and ReattachConfig.Addr hold, so every holder now sees a different address than the plugin announced", nil)
+				}
+			}
+			return true
+		})
+	}
+	if bad == 0 {
+		c.R.Hold("R-ADDR/immutable", "-", "", "no field of a net address is assigned", fmt.Sprintf("%d assignments to fields of net.TCPAddr/UnixAddr values in the module, none to a shared one", n), true)
+	}
+}
+
+// ---------- R-MUX/window: nothing shortens or ends the multiplexed hand-shake window ----------
+
+// ruleMuxWindow: three things a multiplexed brokered connection relies on.
+// (a) The dial options the library builds leave gRPC's connect timing alone:
+// with multiplexing the dialer blocks inside the gRPC dial while the knock
+// waits (up to the 5 s pending window) for the peer's Accept, so a connect
+// deadline or back-off shorter than gRPC's default makes gRPC drop the stream
+// just as the late acknowledgement arrives. (b) A brokered server accepted with
+// AcceptAndServe lives until its server or the broker stops: no timer ends it
+// (with multiplexing nothing expires on the dialling side, a knock may arrive at
+// any time). (c) Dial does not wait for the connection to become ready: the
+// peer's Accept may legitimately be issued after Dial has returned.
+func ruleMuxWindow(c *Ctx) {
+	p := c.P
+	timing := map[string]bool{
+		"google.golang.org/grpc.WithConnectParams": true, "google.golang.org/grpc.WithBackoffConfig": true,
+		"google.golang.org/grpc.WithBackoffMaxDelay": true, "google.golang.org/grpc.WithTimeout": true,
+		"google.golang.org/grpc.WithBlock": true, "google.golang.org/grpc.WithIdleTimeout": true,
+		"google.golang.org/grpc.WithKeepaliveParams": true, "google.golang.org/grpc.WithReturnConnectionError": true,
+	}
+	nA := 0
+	for _, f := range p.Funcs {
+		if strings.HasSuffix(p.Fset.Position(f.Body.Pos()).Filename, "testing.go") {
+			continue
+		}
+		for _, call := range f.Calls() {
+			if nm := p.CalleeName(f, call); timing[nm] {
+				nA++
+				c.R.Violate("R-MUX/window", p.Pos(call), f.Name, "dial option "+shortName(nm),
+					"the library adds a dial option that changes gRPC's connect timing (deadline, back-off, blocking, idle or keep-alive behaviour): a multiplexed dial whose knock is answered within the pending window can then be torn down by gRPC itself", nil)
+			}
+		}
+	}
+	if nA == 0 {
+		c.R.Hold("R-MUX/window", "-", "", "dial options leave gRPC's connect timing alone", "no connect-timing dial option is constructed in the module", true)
+	}
+	timers := map[string]bool{"time.After": true, "time.NewTimer": true, "time.AfterFunc": true, "time.Tick": true, "time.NewTicker": true,
+		"context.WithTimeout": true, "context.WithDeadline": true, "time.Sleep": true}
+	if f := p.Fn("GRPCBroker.AcceptAndServe"); f != nil {
+		bad := false
+		for _, lf := range p.Funcs {
+			root := lf
+			for root.Parent != nil {
+				root = root.Parent
+			}
+			if root != f {
+				continue
+			}
+			for _, call := range lf.Calls() {
+				if nm := p.CalleeName(lf, call); timers[nm] {
+					bad = true
+					c.R.Violate("R-MUX/window", p.Pos(call), lf.Name, "a brokered server is not ended by a timer",
+						"AcceptAndServe arms a timer ("+shortName(nm)+"): a brokered server must stay available until its gRPC server or the broker stops - on a multiplexed connection the peer's dial may come at any time", nil)
+				}
+			}
+		}
+		if !bad {
+			c.R.Hold("R-MUX/window", p.Pos(f.Node()), f.Name, "a brokered server is not ended by a timer", "no timer, deadline or sleep in AcceptAndServe or its closures", true)
+		}
+	} else {
+		c.R.Undecided("R-MUX/window", "GRPCBroker.AcceptAndServe", "anchor", "function not found")
+	}
+	waits := map[string]bool{"google.golang.org/grpc.ClientConn.WaitForStateChange": true, "google.golang.org/grpc.ClientConn.Connect": true,
+		"google.golang.org/grpc.ClientConn.GetState": true}
+	for _, name := range []string{"GRPCBroker.DialWithOptions", "GRPCBroker.Dial"} {
+		f := p.Fn(name)
+		if f == nil {
+			c.R.Undecided("R-MUX/window", name, "anchor", "function not found")
+			continue
+		}
+		bad := false
+		for _, lf := range p.Funcs {
+			root := lf
+			for root.Parent != nil {
+				root = root.Parent
+			}
+			if root != f {
+				continue
+			}
+			for _, call := range lf.Calls() {
+				if nm := p.CalleeName(lf, call); waits[nm] {
+					bad = true
+					c.R.Violate("R-MUX/window", p.Pos(call), lf.Name, "Dial does not wait for readiness",
+						"the brokered dial inspects or waits for the connection state ("+shortName(nm)+"): Dial must return the lazily connecting ClientConn, because the peer may only accept after Dial has returned", nil)
+				}
+			}
+		}
+		if !bad {
+			c.R.Hold("R-MUX/window", p.Pos(f.Node()), f.Name, "Dial does not wait for readiness", "no WaitForStateChange/Connect/GetState on the dialled connection", true)
+		}
 	}
 }
